@@ -19,6 +19,7 @@ LEVEL_TEXT += (" (C10.rx) an arm's regex is Regex::new of the parsed pattern str
 
 
 LEVEL_TEXT += (" The `$n` binding loop dominates the construction of the arm's context.")
+LEVEL_TEXT += (' F0: the scanned string is evaluate(value)?.into_string()? in both modes.')
 def run(prog, rep):
     rep.rule("E3.s-scan", "both scan loops have features F1-F7 (guard, slice match, empty-match error, (start, arm) sort key, "
                           "first candidate, advance by group-0 end, $k binding) and the two modes agree on them")
@@ -36,7 +37,7 @@ def run(prog, rep):
         for fid, msg in problems:
             seen.add(fid)
             rep.violation("E3.s-scan", "%s :: %s" % (f.id, fid), f.loc(), msg)
-        for fid in ("F1", "F2", "F3", "F4", "F5", "F6", "F7"):
+        for fid in ("F0", "F1", "F2", "F3", "F4", "F5", "F6", "F7"):
             if fid not in seen and any(k.startswith(fid) for k in fe):
                 rep.ok("E3.s-scan", "%s :: %s" % (f.id, fid), f.loc(), "; ".join("%s" % v for k, v in sorted(fe.items()) if k.startswith(fid))[:300])
             elif fid not in seen:
